@@ -52,6 +52,23 @@ def ref_checks(d, names):
     return bad
 
 
+def _direct_arity(ver, d, names):
+    """VERIFY fail at a CALL that directly follows ID_FUNC_ADDR g -> (addr, g, np g, cert text)"""
+    import re
+    m = re.match(r"VERIFY fail addr=(\d+) op=(\d+) .*?cert=(\S+)", ver)
+    if not m:
+        return None
+    a, op = int(m.group(1)), int(m.group(2))
+    if a < 1 or op >= len(names) or names[op] != "BYTECODE_CALL" or a >= len(d["code"]):
+        return None
+    prev = d["code"][a - 1]
+    if names[prev[0]] != "BYTECODE_ID_FUNC_ADDR":
+        return None
+    g = prev[1]
+    npg = [f[1] for f in d["funcs"] if f[0] == g]
+    return a, g, (npg[0] if npg else "?"), m.group(3)
+
+
 def run(ctx):
     from gen import gen_opcodes
     g = gen_opcodes.main()
@@ -122,6 +139,14 @@ def run(ctx):
             ctx.violation("lockstep-crash:%s" % pid,
                           "real run of %s leaves the frame discipline: %s" % (pid, lock),
                           {"program": pid, "lockstep": lock, "verify": ver})
+        elif lock.startswith("LOCKSTEP aritystuck"):
+            # the real run executed a CALL with a number of argument slots above the frame header that
+            # differs from the callee's parameter count (hook H3): the caller's code left an operand too
+            # many / too few on the stack — ill-formed code on an executed path
+            ctx.violation("lockstep-arity:%s" % pid,
+                          "real run of %s executes a CALL whose argument slots do not match the callee's parameter count: %s" % (pid, lock),
+                          {"program": pid, "lockstep": lock, "verify": ver,
+                           "how": "bcdump --trace <program> | build/ocaml/verifier/run : the shape machine answers ArityStuck at that step"})
         elif lock.startswith("LOCKSTEP kinds"):
             stats["lockstep_mismatch"] += 1
             ctx.correspondence_broken("shape-machine-slot-kinds-vs-vm:%s" % pid,
@@ -129,7 +154,7 @@ def run(ctx):
                                        "meaning": "the VM tags a stack slot (GC_MEM_ADDR root / GC_MEM_STACK saved register / GC_MEM_IP) "
                                                   "differently from the frame layout of the shape machine; whether a live cell can be "
                                                   "reclaimed because of it is searched by C09's schedule family (checks/parts/gcschedule.py)"})
-        elif lock.startswith("LOCKSTEP mismatch") or lock.startswith("LOCKSTEP aritystuck") or lock == "timeout":
+        elif lock.startswith("LOCKSTEP mismatch") or lock == "timeout":
             stats["lockstep_mismatch"] += 1
             ctx.correspondence_broken("shape-machine-vs-vm:%s" % pid, {"program": pid, "lockstep": lock})
         elif lock.startswith("LOCKSTEP ok"):
@@ -144,6 +169,14 @@ def run(ctx):
                               "compiled code of %s is ill-formed on a static path: %s; %s" % (pid, ver, wit[:300]),
                               {"program": pid, "verify": ver, "witness_path": wit, "lockstep": lock,
                                "how": "bcdump <program> | build/ocaml/verifier/run : the listed (ip:sp) path is a run of the shape machine over the real module ending in the crash"})
+            elif _direct_arity(ver, d, names) is not None:
+                a, g, npg, cert = _direct_arity(ver, d, names)
+                ctx.violation("static-arity:%s" % pid,
+                              "compiled code of %s is ill-formed: the CALL at address %d directly follows ID_FUNC_ADDR %d (a function of %s "
+                              "parameters) but the certified stack depth there (%s) does not leave exactly that many argument slots above "
+                              "the frame header (theorem direct_call_arity, Properties_C07b.v)" % (pid, a, g, npg, cert),
+                              {"program": pid, "verify": ver, "call_address": a, "callee": g, "callee_params": npg, "certificate": cert,
+                               "how": "bcdump <program> | build/ocaml/verifier/run"})
             else:
                 ctx.correspondence_broken("verify(%s)" % pid, {"program": pid, "verify": ver, "witness": wit, "lockstep": lock,
                                                                 "note": "the proved validator rejects this module; no crashing static path found"})
